@@ -53,9 +53,7 @@ def _constraint_of(ctx, fi: index.FuncInfo):
   std = [c for c in common.calls_in(fi.node) if common.call_name(c).endswith('materialize_standard_op')]
   if len(std) != 1:
     raise index.AnalysisError(f'{fi.fq}: expected exactly one materialize_standard_op call, found {len(std)}')
-  kw = {k.arg: k.value for k in std[0].keywords}
-  if 'constraint' not in kw and len(std[0].args) > 3:
-    kw['constraint'] = std[0].args[3]
+  kw = common.named_args(ctx, fi, std[0])
   if 'constraint' not in kw:
     d = ctx.repo.func(f'{MMU}:materialize_standard_op').param_default('constraint')
     v = ctx.ev.eval(d, ctx.repo.mod(MMU), {})
@@ -309,23 +307,23 @@ def r4_bias(ctx):
         continue
       inl = defuse.Inliner(ctx.repo, max_depth=0)
       got = {}
-      for k in bc[0].keywords:
+      for kname, kval in common.named_args(ctx, fi, bc[0]).items():
         try:
-          v = ctx.ev.eval(inl.inline(fi, k.value), fi.module, {})
+          v = ctx.ev.eval(inl.inline(fi, kval), fi.module, {})
         except Exception:  # pylint: disable=broad-except
-          d = fi.param_default(ast.unparse(k.value))
+          d = fi.param_default(ast.unparse(kval))
           v = d.value if isinstance(d, ast.Constant) else None
-        got[k.arg] = v
+        got[kname] = v
       want = {'op_input_index': lay['input'], 'op_weight_index': lay['weight'], 'op_bias_index': lay['bias']}
       ctx.check(R, all(got.get(k) == v for k, v in want.items()), bc[0], fi, f'{op.name}: {got}', f'{op.name}: input/weight/bias operand indices must be {want}, materialiser passes {got}')
       std = [c for c in common.calls_in(fi.node) if common.call_name(c).endswith('materialize_standard_op')]
       ig = None
-      for k in std[0].keywords if std else []:
-        if k.arg == 'inputs_to_ignore':
+      for kname, kval in (common.named_args(ctx, fi, std[0]).items() if std else []):
+        if kname == 'inputs_to_ignore':
           try:
-            ig = ctx.ev.eval(inl.inline(fi, k.value), fi.module, {})
+            ig = ctx.ev.eval(inl.inline(fi, kval), fi.module, {})
           except Exception:  # pylint: disable=broad-except
-            ig = [fi.param_default(e.id).value if isinstance(e, ast.Name) and isinstance(fi.param_default(e.id), ast.Constant) else None for e in k.value.elts] if isinstance(k.value, ast.List) else None
+            ig = [fi.param_default(e.id).value if isinstance(e, ast.Name) and isinstance(fi.param_default(e.id), ast.Constant) else None for e in kval.elts] if isinstance(kval, ast.List) else None
       need = {lay['bias']} | ({lay['shape']} if 'shape' in lay else set())
       ctx.check(R, isinstance(ig, list) and set(ig) == need, fi.node, fi, f'{op.name}: inputs_to_ignore={ig}', f'{op.name}: the standard pass must leave out exactly the bias{" and shape" if "shape" in lay else ""} operand(s) {sorted(need)}')
   c17.r8_bias(ctx)
